@@ -183,6 +183,34 @@ Ltac user_facts :=
          | H : is_escrow _ = true |- _ => apply is_escrow_spec in H
          end.
 
+Lemma pay_balanced : forall m0 k i pays m d, is_escrow m = true -> pays_ok pays = true ->
+  effs_liab (pay_effs m0 k i pays) m d = effs_bal (pay_effs m0 k i pays) m d.
+Proof.
+  intros m0 k i pays m d Hm. induction pays as [|[v outs] r IH]; intro F; cbn [pay_effs pays_ok flat_map forallb fst snd] in *.
+  - reflexivity.
+  - apply andb_prop in F as [F1 F2]. apply andb_prop in F1 as [Fu Fo]. specialize (IH F2). unfold pay_effs in IH.
+    rewrite effs_liab_app, effs_bal_app, IH. rewrite (withdraw_balanced m0 k i v outs m d Fu Hm Fo). reflexivity.
+Qed.
+
+Lemma deposit_balanced : forall u m0 k i deps m d, is_user u = true -> is_escrow m = true ->
+  effs_liab (deposit_effs u m0 k i deps) m d = effs_bal (deposit_effs u m0 k i deps) m d.
+Proof.
+  intros u m0 k i deps m d Hu Hm. apply is_user_spec in Hu. apply is_escrow_spec in Hm.
+  induction deps as [|[e x] r IH]; cbn [deposit_effs flat_map] in *; [reflexivity|].
+  unfold deposit_effs in IH. rewrite effs_liab_app, effs_bal_app, IH.
+  cbn [effs_liab effs_bal eff_liab eff_bal fst snd]. split_eqb; consts; lia.
+Qed.
+
+Lemma bkburn_balanced : forall u b t outs m d, is_user u = true -> is_escrow m = true ->
+  forallb (fun o => 0 <=? snd o) outs = true ->
+  effs_liab (bkburn_effs u b t outs) m d <= effs_bal (bkburn_effs u b t outs) m d.
+Proof.
+  intros u b t outs m d Hu Hm F. unfold bkburn_effs.
+  cbn [effs_liab effs_bal eff_liab eff_bal]. rewrite effs_liab_app, effs_bal_app.
+  rewrite (withdraw_balanced BASKET K_BTOKEN b u outs m d) by assumption.
+  user_facts. cbn [effs_liab effs_bal eff_liab eff_bal]. split_eqb; consts; lia.
+Qed.
+
 Lemma compile_balanced : forall o s es m, compile o s = Some es -> special o = false -> is_escrow m = true ->
   balanced_for es m.
 Proof.
@@ -195,10 +223,21 @@ Proof.
     cbn [effs_liab effs_bal eff_liab eff_bal]. pose proof (slash_balanced s p frac ds m d Hm H). lia.
   - (* BkBurn *)
     repeat (apply andb_prop in G as [G ?]).
-    cbn [effs_liab effs_bal eff_liab eff_bal]. rewrite effs_liab_app, effs_bal_app.
     assert (Hu : is_user u = true) by (unfold is_user; lia).
-    rewrite (withdraw_balanced BASKET K_BTOKEN b u outs m d) by assumption.
+    apply bkburn_balanced; assumption.
+  - (* SpWithdrawProp *)
+    rewrite pay_balanced by assumption. lia.
+  - (* SpClaims *)
+    rewrite pay_balanced by assumption. lia.
+  - (* BkMintC *)
+    repeat (apply andb_prop in G as [G ?]).
+    assert (Hu : is_user u = true) by (unfold is_user; lia).
+    rewrite effs_liab_app, effs_bal_app, (deposit_balanced u BASKET K_BTOKEN b (map fst deps) m d Hu Hm).
     user_facts. cbn [effs_liab effs_bal eff_liab eff_bal]. split_eqb; consts; lia.
+  - (* BkBurnC *)
+    repeat (apply andb_prop in G as [G ?]).
+    assert (Hu : is_user u = true) by (unfold is_user; lia).
+    apply bkburn_balanced; assumption.
 Qed.
 
 (* ---------------------------------------------------------------- every operation keeps the invariants *)
@@ -397,14 +436,57 @@ Proof. induction a; intros; cbn [app effs_book]; [|rewrite IHa]; lia. Qed.
 Lemma effs_aux_app : forall a b k i d, effs_aux (a ++ b) k i d = effs_aux a k i d + effs_aux b k i d.
 Proof. induction a; intros; cbn [app effs_aux]; [|rewrite IHa]; lia. Qed.
 
-Lemma withdraw_no_share : forall v b outs p d,
-  effs_sup (withdraw_effs BASKET K_BTOKEN b v outs) (share p d) = 0 /\
-  effs_book (withdraw_effs BASKET K_BTOKEN b v outs) MS K_STAKED p d = 0 /\
-  effs_aux (withdraw_effs BASKET K_BTOKEN b v outs) A_SLASHED p 0 = 0.
+Lemma withdraw_no_share : forall m0 k i v outs p d, m0 <> MS ->
+  effs_sup (withdraw_effs m0 k i v outs) (share p d) = 0 /\
+  effs_book (withdraw_effs m0 k i v outs) MS K_STAKED p d = 0 /\
+  effs_aux (withdraw_effs m0 k i v outs) A_SLASHED p 0 = 0.
 Proof.
-  intros. induction outs as [|[e w] r IH]; cbn [withdraw_effs flat_map] in *; [repeat split; reflexivity|].
+  intros m0 k i v outs p d Hm. induction outs as [|[e w] r IH]; cbn [withdraw_effs flat_map] in *; [repeat split; reflexivity|].
   unfold withdraw_effs in IH. destruct IH as (A & B & C).
-  rewrite effs_sup_app, effs_book_app, effs_aux_app, A, B, C. cbn. repeat split; reflexivity.
+  rewrite effs_sup_app, effs_book_app, effs_aux_app, A, B, C.
+  cbn [effs_sup eff_sup effs_book effs_aux fst snd]. destruct (Z.eqb_spec m0 MS); [contradiction|]. cbn. repeat split; reflexivity.
+Qed.
+
+Lemma pay_no_share : forall m0 k i pays p d, m0 <> MS ->
+  effs_sup (pay_effs m0 k i pays) (share p d) = 0 /\
+  effs_book (pay_effs m0 k i pays) MS K_STAKED p d = 0 /\
+  effs_aux (pay_effs m0 k i pays) A_SLASHED p 0 = 0.
+Proof.
+  intros m0 k i pays p d Hm. induction pays as [|[v outs] r IH]; cbn [pay_effs flat_map fst snd] in *; [repeat split; reflexivity|].
+  unfold pay_effs in IH. destruct IH as (A & B & C). destruct (withdraw_no_share m0 k i v outs p d Hm) as (A1 & B1 & C1).
+  rewrite effs_sup_app, effs_book_app, effs_aux_app, A, B, C, A1, B1, C1. repeat split; reflexivity.
+Qed.
+
+Lemma deposit_no_share : forall u m0 k i deps p d, m0 <> MS ->
+  effs_sup (deposit_effs u m0 k i deps) (share p d) = 0 /\
+  effs_book (deposit_effs u m0 k i deps) MS K_STAKED p d = 0 /\
+  effs_aux (deposit_effs u m0 k i deps) A_SLASHED p 0 = 0.
+Proof.
+  intros u m0 k i deps p d Hm. induction deps as [|[e w] r IH]; cbn [deposit_effs flat_map] in *; [repeat split; reflexivity|].
+  unfold deposit_effs in IH. destruct IH as (A & B & C).
+  rewrite effs_sup_app, effs_book_app, effs_aux_app, A, B, C.
+  cbn [effs_sup eff_sup effs_book effs_aux fst snd]. destruct (Z.eqb_spec m0 MS); [contradiction|]. cbn. repeat split; reflexivity.
+Qed.
+
+Lemma basket_not_ms : BASKET <> MS. Proof. unfold BASKET, MS; lia. Qed.
+Lemma spend_not_ms : SPEND <> MS. Proof. unfold SPEND, MS; lia. Qed.
+
+Lemma bkburn_no_slash : forall u b t outs p, effs_aux (bkburn_effs u b t outs) A_SLASHED p 0 = 0.
+Proof.
+  intros. unfold bkburn_effs. destruct (withdraw_no_share BASKET K_BTOKEN b u outs p 0 basket_not_ms) as (_ & _ & W3).
+  cbn [effs_aux]. rewrite effs_aux_app, W3. cbn [effs_aux]. unfold A_BAMOUNT, A_SLASHED. cbn. reflexivity.
+Qed.
+
+Lemma bkburn_no_share : forall u b t outs p d, 0 <= b -> 1 <= p < 1000 -> 0 <= d < 100 ->
+  effs_sup (bkburn_effs u b t outs) (share p d) = 0 /\
+  effs_book (bkburn_effs u b t outs) MS K_STAKED p d = 0 /\
+  effs_aux (bkburn_effs u b t outs) A_SLASHED p 0 = 0.
+Proof.
+  intros u b t outs p d Hb Hp Hd. unfold bkburn_effs.
+  destruct (withdraw_no_share BASKET K_BTOKEN b u outs p d basket_not_ms) as (W1 & W2 & W3).
+  cbn [effs_aux effs_sup eff_sup effs_book]. rewrite effs_sup_app, effs_book_app, effs_aux_app, W1, W2, W3.
+  cbn [effs_aux effs_sup eff_sup effs_book]. unfold A_BAMOUNT, A_SLASHED.
+  repeat split; split_eqb; consts; lia.
 Qed.
 
 Record SM (s : state) : Prop := mkSM { sm_unslashed : unslashed s; sm_match : shares_match s }.
@@ -423,13 +505,28 @@ Proof.
               try (rewrite (U p), pool_coin_unslashed by lia);
               unfold K_STAKED, K_UNDEL, K_REWARD, K_BTOKEN, K_SURPLUS, K_SPOOL, K_TIP, A_SLASHED, A_TREASURY, A_BAMOUNT in *;
               split_eqb; consts; unfold is_native in *; lia).
-    (* BkBurn *)
-    split; [intro p0 | intros p0 d0 Hp Hd]; repeat (apply andb_prop in G as [G ?]);
-      cbn [effs_aux effs_sup eff_sup effs_book]; rewrite ?effs_sup_app, ?effs_book_app, ?effs_aux_app.
-    - destruct (withdraw_no_share u b outs p0 0) as (_ & _ & W). rewrite W. cbn [effs_aux].
-      unfold A_BAMOUNT, A_SLASHED. cbn. reflexivity.
-    - destruct (withdraw_no_share u b outs p0 d0) as (W1 & W2 & _). rewrite W1, W2.
-      cbn [effs_aux effs_sup eff_sup effs_book]. split_eqb; consts; lia. }
+    - (* BkBurn *)
+      repeat (apply andb_prop in G as [G ?]).
+      split; [intro p0; apply bkburn_no_slash
+             | intros p0 d0 Hp Hd; destruct (bkburn_no_share u b t outs p0 d0) as (W1 & W2 & _); lia].
+    - (* SpWithdrawProp *)
+      split; [intro p0; apply (pay_no_share SPEND K_SPOOL pool _ p0 0 spend_not_ms)
+             | intros p0 d0 Hp Hd; destruct (pay_no_share SPEND K_SPOOL pool (map (fun v => (v, amts)) vs) p0 d0 spend_not_ms) as (W1 & W2 & _); lia].
+    - (* SpClaims *)
+      split; [intro p0; apply (pay_no_share SPEND K_SPOOL pool _ p0 0 spend_not_ms)
+             | intros p0 d0 Hp Hd;
+               destruct (pay_no_share SPEND K_SPOOL pool (map (fun c => (fst (fst c), claim_outs rates (snd (fst c)) (snd c))) cl) p0 d0 spend_not_ms) as (W1 & W2 & _); lia].
+    - (* BkMintC *)
+      repeat (apply andb_prop in G as [G ?]).
+      split; [intro p0 | intros p0 d0 Hp Hd]; rewrite ?effs_sup_app, ?effs_book_app, ?effs_aux_app.
+      + destruct (deposit_no_share u BASKET K_BTOKEN b (map fst deps) p0 0 basket_not_ms) as (_ & _ & W). rewrite W.
+        cbn [effs_aux]. unfold A_BAMOUNT, A_SLASHED. cbn. reflexivity.
+      + destruct (deposit_no_share u BASKET K_BTOKEN b (map fst deps) p0 d0 basket_not_ms) as (W1 & W2 & _). rewrite W1, W2.
+        cbn [effs_aux effs_sup eff_sup effs_book]. split_eqb; consts; lia.
+    - (* BkBurnC *)
+      repeat (apply andb_prop in G as [G ?]).
+      split; [intro p0; apply bkburn_no_slash
+             | intros p0 d0 Hp Hd; destruct (bkburn_no_share u b t (burn_outs (fun d => book s BASKET K_BTOKEN b d) (burn_portion t (supply s (basket_denom b) - t)) ds) p0 d0) as (W1 & W2 & _); lia]. }
   destruct Hes as [HA HS]. constructor.
   - intro p. unfold slashed_of. rewrite A, HA. apply U.
   - intros p d Hp Hd. rewrite S, B, HS by assumption. rewrite (M p d Hp Hd). reflexivity.
